@@ -121,6 +121,43 @@ CHECKS["C04"] = dict(
     technique="Coq proof (Dykstra invariants) over Q model + in-Coq correspondence",
     design="7/C04")
 
+CHECKS["C08"] = dict(
+    text=("Theorems (Props/C08.v) about the Gallina model of lattice_lib.project_by_dykstra and its eight group "
+          "projections: roll-back (increment-sum) invariant; a kernel feasible for every configured family is "
+          "returned unchanged for any iteration count and units (all eight families); every fixpoint of a sweep "
+          "is the Euclidean-nearest feasible kernel (variational inequality) for the six exact families; each of "
+          "their group updates IS the nearest-point map onto its constraint group (coefficients, parities and "
+          "signs checked by proof); range-dominance corner update refuted as a projection (the property claims "
+          "nearest only for the six families); PWL feasible-fixed re-exported. Convergence of the iterates "
+          "(Boyle-Dykstra) is cited, not proved, and tested against an independent exact projection (NNLS)."),
+    note="Models: Model/LatticeDykstra.v, Model/PWLProject.v. Asymptotic clauses (violation -> 0, closeness at "
+         "finite n) are differential testing, labelled as such in the evidence.",
+    technique="Coq proof (Dykstra fixpoint theory, half-space projections) + in-Coq correspondence + NNLS oracle test",
+    design="7/C08")
+CHECKS["C09"] = dict(
+    text=("Theorems (Props/C09.v): in the Lattice models every pass of finalize and every group op / sweep of the "
+          "Dykstra stage, run on a multi-unit kernel and sliced at unit u, equals the single-unit model run on "
+          "column u alone (simulation proofs over the explicit per-unit reductions), hence permuting units permutes "
+          "results; Linear, Categorical and PWL per-column theorems re-exported. On every run Coq executes the "
+          "SINGLE-unit models on each column and compares with the columns of the implementation's multi-unit "
+          "result; output-unit and batch independence of all layer kinds, CDF, functional forms, RTL and two "
+          "premade models are differential tests on the implementation."),
+    note="Batch handling inside TensorFlow kernels and layer output-unit independence are observed, not modelled; "
+         "KFL per-unit: tested on the implementation.",
+    technique="Coq simulation proofs + in-Coq single-unit model vs multi-unit implementation columns",
+    design="7/C09")
+CHECKS["C10"] = dict(
+    text=("Theorems (Props/C10.v) for models of the library's initializers, all shapes/units/bounds and all random "
+          "draws (arbitrary in-level order, arbitrary sorted samples): Lattice linear init is linear along monotone "
+          "dims, valley/peak around size//2, constant elsewhere, min/max = init range; random-monotonic init "
+          "monotone in all dims and in range; PWL / KFL / categorical initial weights monotone and bounded; strict "
+          "constraint leaves the fresh kernel unchanged for monotonicity+bounds configs; which other families the "
+          "linear kernel satisfies, with refuted witnesses for known findings D6, D24. Initializers and fresh "
+          "layers compared in Coq with the models on every run."),
+    note="Models: Model/LatticeInit.v, PWLInit.v, KFLInit.v. Open findings D6, D24, D25.",
+    technique="Coq proof over Q model with random-source oracles + in-Coq correspondence",
+    design="7/C10")
+
 NOT_YET = {}
 
 
